@@ -73,32 +73,38 @@ theorem C16_close (w : List (List Op)) (hw : noClose w = true) (sched : List Tid
 example : let s := exec .current false ([0,0,0,0,0,0] ++ List.replicate 7 1 ++ [2,2,2] ++ List.replicate 7 1) (init [[.prepare], [.call]])
     s.final = true ∧ s.conn.isSome = true := by decide
 
-/-! ### stated, not yet proved (see the evidence file: counted as obligations, not as discharged)
-
-  Both are checked on every schedule the driver enumerates (harness, bounded); the proofs need two more
-  clauses of the invariant (a thread joined by run() is a starter; the number of threads standing at
-  `cRecv` equals the number of unread replies) and the bookkeeping of answered calls. -/
-
-/-- in every reachable state of a prepare()/call workload in which some thread is still running,
-    some thread can execute a line -/
-def C16_no_deadlock_stmt : Prop :=
-  ∀ (w : List (List Op)), noClose w = true → ∀ (sched : List Tid),
+/-- Progress: in every reachable state of a prepare()/call workload (any number of threads, every
+    schedule) in which some thread is still running, some thread can execute a line.  With
+    `C16_terminates` this means every schedule runs every thread to its end. -/
+theorem C16_no_deadlock (w : List (List Op)) (hw : noClose w = true) (sched : List Tid) :
     let s := exec .current false sched (init w)
-    s.final = false → s.stuck .current false = false
+    s.final = false → s.stuck .current false = false := by
+  intro s hf
+  obtain ⟨h, h2⟩ := inv_both_reach w hw sched
+  exact no_deadlock h h2 hf
 
-/-- in every reachable state of a prepare()/call workload (with at least one call) in which no thread
-    can execute a line, exactly one server was launched and every call of every thread was answered -/
-def C16_exactly_one_stmt : Prop :=
-  ∀ (w : List (List Op)), noClose w = true → hasCall w = true → ∀ (sched : List Tid),
+/-- Exactly one server: in every reachable state of a prepare()/call workload with at least one call
+    in which no thread can execute a line, exactly one server was launched and every call of every
+    thread of the workload was answered (the thread returned, having received as many replies as it
+    made calls). -/
+theorem C16_exactly_one (w : List (List Op)) (hw : noClose w = true) (hc : hasCall w = true) (sched : List Tid) :
     let s := exec .current false sched (init w)
     s.stuck .current false = true →
     s.popen = 1 ∧ ∀ (i : Tid) (ops : List Op), w[i]? = some ops →
-      ∃ th, s.threads[i]? = some th ∧ th.out = .returned ∧ th.answered = ops.count .call
+      ∃ th, s.threads[i]? = some th ∧ th.out = .returned ∧ th.answered = ops.count .call := by
+  intro s hst
+  obtain ⟨h, h2⟩ := inv_both_reach w hw sched
+  exact exactly_one h h2 hc hst
 
-/-- the part of `C16_exactly_one_stmt` that is proved: in every reachable state at most one server was
-    launched, it was launched iff a connection exists, and a thread that is not running has returned
-    (it did not raise) -/
-theorem C16_exactly_one_partial (w : List (List Op)) (hw : noClose w = true) (sched : List Tid) :
+/-! non-vacuity: a workload with calls, a schedule that leaves nothing runnable, and one that does -/
+example : noClose [[.prepare], [.call]] = true ∧ hasCall [[.prepare], [.call]] = true := by decide
+example : (exec .current false ([0,0,0,0,0,0] ++ List.replicate 7 1 ++ [2,2,2] ++ List.replicate 7 1)
+    (init [[.prepare], [.call]])).stuck .current false = true := by decide
+example : (exec .current false [0,0,1] (init [[.prepare], [.call]])).final = false := by decide
+
+/-- in EVERY reachable state (not only the final ones): a server was launched iff a connection exists,
+    and a thread that is not running has returned (it did not raise) -/
+theorem C16_at_most_one (w : List (List Op)) (hw : noClose w = true) (sched : List Tid) :
     let s := exec .current false sched (init w)
     (s.popen = if s.conn.isSome then 1 else 0) ∧
     (∀ (i : Tid) (th : Thr), s.threads[i]? = some th → th.out ≠ .running → th.out = .returned ∧ th.pc = .done) := by
